@@ -53,10 +53,8 @@ _D = {"MAININS": '{"init"}', "MAXSTMTS": 2, "STMTS": '{"def"}', "DECOS": '{"none
       "IMPORTS": '{"OK"}', "ASNAMES": '{"-"}'}
 DEFECTS = {
     "annonly": ("NoAnnOnly", dict(_D, STMTS='{"def", "annonly"}')),
-    "none-in-submodule": ("NoNoneInSubmodule", dict(_D, MAININS='{"init", "sub"}', STMTS='{"assign"}', VALS='{"lit", "none"}')),
     "classmethod-cls": ("NoClassmethodCls", dict(_D, STMTS='{"def", "class"}', DECOS='{"none", "static", "class"}')),
     "import-self": ("NoImportSelf", dict(_D, MAININS='{"init", "sub"}', STMTS='{"import", "from"}')),
-    "variadic-required": ("NoVariadicRequired", dict(_D, SIGS='{"s0", "s1", "s2"}')),
     "double-cleandoc": ("NoDoubleCleandoc", dict(_D, DOCS='{"none", "one", "std", "nl", "deep", "ragged"}')),
     "base-rebound": ("NoBaseRebound", dict(_D, MAXSTMTS=3, STMTS='{"class", "assign", "from"}', ASNAMES='{"-", "a"}')),
     "ref": ("NoRef", dict(_D, STMTS='{"def", "assign", "ref"}')),
@@ -557,6 +555,6 @@ def _replay_constants(case: dict) -> dict:
         "MODDOCS": s([case["mdoc"]]),
         "VALS": s([k["val"] for k in prog if k["t"] in ("assign", "ann")] or ["lit"]),
         "IMPORTS": s([k["what"] for k in prog if k["t"] == "from"] or ["OK"]),
-        "ASNAMES": s([k["as"] for k in prog if k["t"] == "from"] or ["-"]),
+        "ASNAMES": s([k["as"] for k in prog if k["t"] in ("from", "import")] or ["-"]),
         "ALLOWINST": "TRUE" if any(k["inst"] for k in prog) or any(k["n"] == "__init__" for k in prog) else "FALSE",
     }
